@@ -88,7 +88,7 @@ class Run:
                 self.oblige("theorem file Props/%s.v exists" % prop, False, "missing")
                 continue
             src = open(vfile).read()
-            names = re.findall(r'^\s*(?:Theorem|Lemma|Corollary)\s+(\w+)', src, re.M)
+            names = re.findall(r'^\s*(?:Theorem|Corollary)\s+(\w+)', src, re.M)
             n_print = len(re.findall(r'^\s*Print Assumptions', src, re.M))
             os.makedirs(os.path.join(xv.WORK, "cases", "audit"), exist_ok=True)
             out = xv.sh(["coqc", "-noglob"] + xv.COQ_ARGS + ["-o", os.path.join(xv.WORK, "cases", "audit", prop + ".vo"), vfile],
@@ -452,6 +452,16 @@ def get_corpus(run):
 
 
 KNOWN_F1 = "F1"
+_spec_f1 = {}
+
+
+def spec_f1(C, i):
+    """does the specification have a counted array whose elements can carry an F1 leaf?"""
+    key = (C["key"], i)
+    if key not in _spec_f1:
+        o = [o for o in C["obs"] if o["index"] == i][0]
+        _spec_f1[key] = valgen.spec_has_f1_array(valgen.Ctx(o["ast"]))
+    return _spec_f1[key]
 
 
 def f1_known(run, c, what):
@@ -468,7 +478,7 @@ def check_c01(run):
     corpus_ties(run, C)
     k3bad = set(C["k3"]["dis"])
     for n, c in enumerate(C["cases"]):
-        if c["kind"] not in ("valid", "valid_ctx"):
+        if c["kind"] not in ("valid", "valid_ctx", "valid_big"):
             continue
         x = c["x"]
         run.case((c["spec"], c["type"], c["input"]),
@@ -496,7 +506,7 @@ def check_c02(run):
     corpus_ties(run, C)
     k3bad = set(C["k3"]["dis"])
     for n, c in enumerate(C["cases"]):
-        if c["kind"] not in ("valid", "valid_ctx"):
+        if c["kind"] not in ("valid", "valid_ctx", "valid_big"):
             continue
         x = c["x"]
         e = valgen.enc(x)
@@ -646,6 +656,9 @@ def check_c05(run):
         if c["kind"] == "prefix" and last_valid is not None and not valgen.step_exact(last_valid["x"]) and n not in k3bad:
             f1_known(run, c, "prefix")
             continue
+        if n not in k3bad and spec_f1(C, c["spec"]):
+            f1_known(run, c, c["kind"])
+            continue
         if c["real"].startswith("ABORT") or "PANIC" in c["real"]:
             what = "a truncated / over-long input makes the decoder panic instead of returning InvalidLength"
         elif c["kind"] == "prefix":
@@ -712,6 +725,9 @@ def check_c06(run):
         if last_valid is not None and not valgen.step_exact(last_valid["x"]) and n not in k3bad:
             f1_known(run, c, "reject")
             continue
+        if n not in k3bad and spec_f1(C, c["spec"]):
+            f1_known(run, c, "reject")
+            continue
         run.violation("%s word at offset %s is not rejected with %s" % (c["kind"], c.get("at"), c["expect_err"]), case_replay(C, c))
 
 
@@ -742,7 +758,7 @@ def check_c08(run):
             if alloc[o:o + len(h) // 2].hex() != h:
                 run.violation("an opaque payload is not at the offset where its bytes appear on the wire", case_replay(C, c))
                 break
-        if c["kind"] in ("valid", "valid_ctx"):
+        if c["kind"] in ("valid", "valid_ctx", "valid_big"):
             x = c["x"]
             want = valgen.canon(x, c["off"])
             p = parse_line(l)
@@ -763,6 +779,9 @@ def check_c09(run):
         maxsize[i] = max(maxsize.get(i, 8), sz)
         ntypes[i] = ntypes.get(i, 0) + 1
     worst = (0, None)
+    f1cx = {}
+    lookup = {o["index"]: o for o in C["obs"]}
+    k3bad = set(C["k3"]["dis"])
     for n, c in enumerate(C["cases"]):
         l = c["real"]
         if l.startswith("ABORT"):
@@ -773,6 +792,16 @@ def check_c09(run):
             bound = (len(c["input"]) + 8) * maxsize.get(c["spec"], 8) * (ntypes.get(c["spec"], 1) + 1)
             run.evaluations += 1
             if a > bound:
+                cx = f1cx.get(c["spec"])
+                if cx is None:
+                    cx = f1cx[c["spec"]] = valgen.spec_has_f1_array(valgen.Ctx(lookup[c["spec"]]["ast"]))
+                if cx and n not in k3bad:
+                    run.known_hit("F1", "F1 (consequence) an array element whose wire_size() is short (inline variable-length "
+                                        "opaque, finding F1) is stepped over by too few bytes -- zero for an empty payload -- so a "
+                                        "count field alone makes the decoder produce and store elements: struct z { opaque a<>; }; "
+                                        "struct zs { z items<>; } on 00 00 08 00 + 8 zero bytes yields 2048 elements (65536 bytes)")
+                    run.count("F1_array_overallocation")
+                    continue
                 run.violation("decode of %d input bytes requested %d bytes from the allocator (bound %d)" % (len(c["input"]), a, bound),
                               case_replay(C, c, {"requested": a, "bound": bound}))
                 break
@@ -940,6 +969,19 @@ def check_c11(run):
                 perm = list(reversed(decls))
             texts.append(specgen.print_spec(perm))
             meta.append((di, "perm"))
+    base_di = len(decl_lists)
+    graphs = specgen.graph_specs(2)
+    grng = random.Random(run.seed + 99)
+    by_set = {}
+    for g in graphs:
+        by_set.setdefault(tuple(sorted(map(repr, g))), []).append(g)
+    groups = list(by_set.values())
+    if run.tier == "quick":
+        groups = grng.sample(groups, min(len(groups), 120))
+    for gi, orders in enumerate(groups):
+        for oi, decls in enumerate(orders):
+            texts.append(specgen.print_spec(decls))
+            meta.append((base_di + gi, "base" if oi == 0 else "perm"))
     for s in xv.harvest_specs():
         texts.append(s)
         meta.append((-1, "harvest"))
@@ -1016,6 +1058,14 @@ def check_c12(run):
              ("union", "uv", "unsigned int", "k", [(["1", "2", "3"], ("void",)), (["4"], ("data", "string", "s"))], ("void",))]
     texts.append(specgen.print_spec(decls, random.Random(3), rich=True))
     meta.append(decls)
+    # fall-through chains ending in a default arm (data / void), const and enum labels
+    for arm in (("data", "unsigned hyper", "rest"), ("void",), ("data", "opaque", "o")):
+        decls = [("const", "THREE", "3"), ("enum", "ee", [("P", "1"), ("Q", "2"), ("R", "7")]),
+                 ("union", "fd1", "int", "k", [(["1"], ("data", "int", "a"))], ("falls", ["2", "THREE"], arm)),
+                 ("union", "fd2", "ee", "k", [(["P"], ("void",))], ("falls", ["Q"], arm)),
+                 ("union", "fd3", "unsigned int", "k", [], ("falls", ["5", "6", "7"], arm))]
+        texts.append(specgen.print_spec(decls, random.Random(len(texts)), rich=(arm[0] == "void")))
+        meta.append(decls)
     try:
         obs = xv.run_front(texts, "c12")
     except TieBroken as e:
@@ -1331,6 +1381,12 @@ def setup():
     if r.returncode != 0:
         print(r.stdout[-3000:])
         return 1
+    # warm the shared decoder corpus of the quick tier (cached per source hash)
+    try:
+        corpus_mod.build("quick", int(os.environ.get("VERIF_SEED", "1")))
+        build_cli(None)
+    except Exception as e:  # the checks themselves report what is wrong
+        print("corpus warm-up: %s" % str(e)[:500])
     print("setup done in %.0fs" % (time.time() - t))
     return 0
 
